@@ -33,7 +33,7 @@ RULE = (
 	'(family, file, line, parameters).')
 TRUSTED_BASE = [
 	'Lean 4.33 kernel; axioms of the property theorems: subset of {propext, Classical.choice, Quot.sound}',
-	'hand-written models SymbolVerif/Model/Lint/{Regex,LineRules}.lean, tied to validation.py / HeaderParser.py by differential runs',
+	'hand-written models SymbolVerif/Model/Lint/{Regex,Capture,Strip,LineRules,Validators,Namespace,Deps}.lean, tied to the linter by differential runs',
 	'translator in harness/c19.py (own parser of the Python `re` subset; cross-checked against `re` itself on every run)',
 	'stand-ins /verif/shims/{ply,colorama}: the namespace / forward-declaration parsers run on the PLY stand-in, so the silent-tree claim '
 	'and the namespace/forward seeded edits depend on its fidelity',
@@ -41,9 +41,8 @@ TRUSTED_BASE = [
 ]
 ASSUMPTIONS = [
 	'\\w, \\d, \\b are modelled on ASCII (Python uses the Unicode tables); lines with non-ASCII characters are skipped in the regex correspondence',
-	'token-level parsers (Parser.NamespacesParser, forwardsValidation) are not modelled: namespace-versus-path and forward declarations are '
-	'covered by seeded edits on the implementation only',
-	'MultiConditionChecker and SingleLineValidator are not modelled (seeded edits on the implementation only)',
+	'token-level parsers (Parser.NamespacesParser, forwardsValidation) are not modelled: which namespace names a file has and forward '
+	'declarations are covered by seeded edits on the implementation only (the namespace rule from the name onwards is modelled)',
 ]
 
 CATAPULT = 'client/catapult'
@@ -1568,6 +1567,7 @@ def run(ctx):
 		ctx.count('seconds:model-lint', int(time.time() - mark))
 		mark = time.time()
 		check_validator_models(ctx, entries, constants, lines)
+		check_namespace_rules(ctx, files)
 		ctx.count('seconds:validator-models', int(time.time() - mark))
 		check_frozen_catalogue(ctx)
 		ctx.count('regex:table-entries', len(entries))
@@ -1631,20 +1631,25 @@ def extra_evidence(ctx):
 
 MANIFEST = {
 	'level_text': (
-		'Partial by design. Proved for all inputs: the regex engine agrees with the declarative semantics on the fragment without '
+		'Partial by design. Proved for all inputs: the regex engine agrees with its declarative semantics on the fragment without '
 		'group/back-reference (m_iff_matches, search_iff_lang); a witness inserted at ANY position of ANY line fires an anchor-free rule '
-		'(search_context) and every table entry has a kernel-checked witness (typo_witnesses, validator_witnesses, re-generated from '
-		'validation.py on every run); seeded-edit theorems for the modelled line rules (trailing whitespace, spaces at start, tabs in empty '
-		'line, tab inside, line length with tabs as 4 incl. the boundary, consecutive blank lines at every position incl. the lines of and below a multi-line directive (the multiline flag of parse_file is '
-		'modelled; parseFileBlank_ignores_multiline), near-end blank lines, mistyped region comment, typo '
-		'insertion, empty line after #pragma once) with undo theorems; exit_is_count and shell_status_wraps; DepsChecker: deps_closure_spec (process_rules = transitive closure of the '
-		'expanded rules), allowed_iff, allowed_needs_full_source_match / extended_source_gets_nothing_from (anchoring), '
-		'shipped_deps_config_closes. Executed on the real code: the CI command over the whole tree (42 suites silent, exit 0) and ~2000 (quick) seeded '
-		'edits of every catalogue family incl. the unmodelled ones, each linted alone, after a dirty file, and undone; EVERY (source directory x include directory) pair of the tree plus synthetic '
-		'neighbour directories through the real DepsChecker.match against an oracle written from deps.config and against the Lean model.'),
+		'(search_context), also through strip_comments_and_strings when it stands outside comments and literals '
+		'(strip_preserves_plain_prefix, stripped_witness_survives, stripped_search_context; strip_idem_partial); every pattern the validators '
+		'hold has a kernel-checked witness (typo_witnesses, validator_witnesses, re-read from the running linter on every run); seeded-edit '
+		'and undo theorems for the modelled line rules (whitespace, line length incl. the boundary, consecutive blank lines at every position - '
+		'the multiline flag of parse_file is modelled -, near-end blank lines, region comments, typo insertion, empty line after #pragma once), '
+		'for MultiConditionChecker (mcc_reports_iff, seeded_stripped_witness, seeded_enum_without_class, seeded_operator_bool_not_explicit, '
+		'seeded_doxygen_in_cpp), for SingleLineValidator (singleLine_two_lines, seeded_split_call) and for the namespace-versus-path rule '
+		'from the namespace name onwards (plugin/extension_namespace_unique, seeded_namespace_rename, default_namespace_needs_path); '
+		'DepsChecker: deps_closure_spec, allowed_iff, anchoring theorems; exit_is_count, shell_status_wraps. Executed on the real code: the CI '
+		'command over the whole tree; context-stratified and sampled seeded edits of every catalogue family, each linted alone, after a dirty '
+		'file, and undone; every (source directory x include directory) pair through DepsChecker.match; the stripper, the capturing matcher, '
+		'MultiConditionChecker, SingleLineValidator and the four namespace_check rule sets against their models.'),
 	'level_note': (
-		'Not modelled: Parser.NamespacesParser and forwardsValidation (PLY-tokenised C++), MultiConditionChecker, SingleLineValidator, '
-		'strip_comments_and_strings; these families are covered by seeded edits on the implementation only. The namespace/forward parsers run on a PLY stand-in. \\w \\d \\b modelled on ASCII. SHA-1 is a parameter.'),
+		'Not modelled: Parser.NamespacesParser and Analyzer.get_shortest_namespace_set (which namespace names a file has; PLY-tokenised C++) '
+		'and forwardsValidation - covered by seeded edits on the implementation only; these parsers run on a PLY stand-in. The capturing '
+		'matcher (groups) and the unconditional idempotence of the stripper are tied by execution only (exhaustive over short marker strings). '
+		'\\w \\d \\b modelled on ASCII. SHA-1 is a parameter.'),
 	'technique': 'Lean 4 theorems over a hand-written model + differential correspondence with the Python implementation',
 }
 
@@ -1915,6 +1920,57 @@ def check_validator_models(ctx, entries, constants, tree_lines):
 			ctx.fail(
 				'corr', f'MultiConditionChecker / SingleLineValidator on the battery under {path}: model and implementation differ on {difference}',
 				{'kind': 'battery', 'path': path, 'difference': difference, 'lines': [battery[int(item.rsplit(":", 1)[1]) - 1] for item in difference]})
+
+
+# endregion
+
+
+# region namespace versus path: Rules.*.namespace_check against Model/Lint/Namespace.lean
+
+
+def check_namespace_rules(ctx, files):
+	"""`ruleset.namespace_check(unified namespace, path)` of the real rule sets against the model, for tree paths and synthetic
+	ones x candidate namespaces (the namespace names themselves come from the unmodelled token-level parser)."""
+	import checkProjectStructure as cps  # pylint: disable=import-error,import-outside-toplevel
+	if not ctx.driver:
+		return
+	rng = ctx.rng
+	kinds = {'DefaultRules': 'default', 'PluginRules': 'plugin', 'ExtensionRules': 'extension', 'ToolsRules': 'tools'}
+	paths = list(files) if ctx.thorough else rng.sample(files, 250)
+	paths += [
+		'src/catapult/model/Mock_Thing.h', 'tests/catapult/model/mocks/MockThing.h', 'tests/int/node/stress/Foo_Bar.cpp', 'tests/bench/nodeps/Bench.cpp',
+		'tests/TestHarness.h', 'tests/test/core/mocks/MockFoo.h', 'plugins/txes/lock_hash/src/constants.h', 'plugins/txes/lock_hash/tests/test/mocks/MockX.h',
+		'plugins/txes/lock_hash/int/Foo.cpp', 'plugins/coresystem/Foo.cpp', 'sdk/src/builders/Foo.h', 'extensions/mongo/MongoExtension.cpp',
+		'extensions/mongo/plugins/transfer/src/TransferMapper.cpp', 'extensions/timesync/src/filters/Foo.h', 'extensions/sync/tests/test/mocks/MockY.h',
+		'extensions/zeromq/src/model.h/Foo.h', 'tools/health/main.cpp', 'tools/tools_x/ToolMain.cpp', 'internal/tools/address/main.cpp', 'extensions/hashcache']
+	directories = sorted({part for relpath in files for part in relpath.split('/')[:-1]})
+	candidates = [f'catapult:{name}:' for name in rng.sample(directories, min(len(directories), ctx.scale(40, 200)))] + [
+		'catapult:test:', 'catapult:mocks:', 'catapult:', 'catapult:plugins:', 'catapult:mongo:plugins:', 'catapult:tools:', 'catapult:tools:health:',
+		'catapult:tools:health:<anon>:', 'catapult:<anon>:', '<anon>:', 'catapult:model:<anon>:', 'catapult:mongo:<anon>:', 'catapult:model:', ':mocks:', '']
+	requests = []
+	for path in paths:
+		ruleset = cps.SOURCE_DIRS.get(path.split('/')[0]) or cps.SOURCE_DIRS.get('/'.join(path.split('/')[:2]))
+		if ruleset is None:
+			continue
+		for namespace in candidates:
+			try:
+				verdict = ruleset.namespace_check(namespace, path)
+				real = bool(verdict[0] if isinstance(verdict, tuple) else verdict)
+			except IndexError:
+				real = False
+				ctx.count('namespace-rule:IndexError')
+			requests.append((f'nscheck {kinds[ruleset.__name__]} {sx(namespace)} {sx(path)}', 'true' if real else 'false', path, namespace))
+	answers = ctx.driver.ask_many([request for request, _, _, _ in requests])
+	accepted = 0
+	for (request, real, path, namespace), answer in zip(requests, answers):
+		accepted += 'true' == real
+		if answer != real:
+			ctx.fail(
+				'corr', f'namespace_check({namespace!r}, {path!r}): model {answer}, implementation {real}',
+				{'kind': 'namespace-rule', 'path': path, 'namespace': namespace, 'request': request.split()[1]})
+	ctx.count('namespace-rule:evaluations', len(requests))
+	ctx.count('namespace-rule:accepted', accepted)
+	ctx.case(('namespace-rule', len(requests)), {'paths': len(paths), 'candidate_namespaces': len(candidates), 'accepted': accepted})
 
 
 # endregion
